@@ -100,6 +100,7 @@ pub fn run(args: &Args) {
     let mut rng = Rng::new(args.seed, "c05", args.shard);
     let n_grammars = args.budget(10_000, 1_000_000);
     let mut cfg = GenCfg::new(Profile::Full);
+    cfg.nonatomic_skip_rules = true;
     cfg.shapes_pct = 45;
     // witnesses of fixed / known entries are replayed on every run (shard 0)
     if args.shard == 0 {
